@@ -3,8 +3,8 @@ from __future__ import annotations
 
 from harness.core import Prop
 
-COLS = ["n", "n10", "n102", "i", "f", "s", "s5", "b", "dt", "tm", "ts", "tz", "bin", "v", "o", "ar"]
-QUERY = set(COLS) | {"two", "count", "litstr", "param", "random", "sample", "starzz"}
+COLS = ["n", "n10", "n102", "n2012", "i", "f", "s", "s5", "b", "dt", "tm", "ts", "tz", "bin", "v", "o", "ar"]
+QUERY = set(COLS) | {"two", "dup", "count", "litstr", "param", "random", "sample", "starzz"}
 NOPREC = {"count", "random", "ins", "upd", "del", "merge"}      # precision of counts / expressions: not fixed by the property
 ALL = sorted(QUERY | {"ins", "upd", "del", "merge", "createt", "alter", "dropt", "createv", "createsc", "usesc", "usedb", "begin",
                       "commit", "rollback", "setv", "unsetv", "call", "truncate", "show_tables", "show_schemas", "describe_table"})
@@ -16,6 +16,7 @@ def sql_of(kind: str):
         return f"select {kind} from ty order by i", None
     return {
         "two": ("select n102, s from ty order by i", None),
+        "dup": ("select i, s as i from ty order by 1", None),
         "count": ("select count(*) as c from ty", None),
         "starzz": ("select * from zz", None),
         "litstr": ("select 'x' as a", None),
@@ -70,7 +71,7 @@ class C06(Prop):
     gen_module = "FsDescrGen"
     judge_module = "FsDescrJudge"
     assumptions = [
-        "table ty with one column per supported type (NUMBER, NUMBER(10,0), NUMBER(10,2), INT, FLOAT, VARCHAR, VARCHAR(5), BOOLEAN, DATE, TIME, "
+        "table ty with one column per supported type (NUMBER, NUMBER(10,0), NUMBER(10,2), NUMBER(20,12), INT, FLOAT, VARCHAR, VARCHAR(5), BOOLEAN, DATE, TIME, "
         "TIMESTAMP_NTZ, TIMESTAMP_TZ, BINARY, VARIANT, OBJECT, ARRAY) and one row; 43 statement kinds; description read at every point of the fetch sequence",
         "precision of count / expression columns, the type codes of OBJECT / ARRAY and the column details of SHOW / DESCRIBE results are not "
         "determined by the property: only structure (one entry per column, names = DictCursor keys) is judged there",
@@ -95,8 +96,8 @@ class C06(Prop):
         return [
             dict(name="edges", mode="edges", sample=None if big else 5000, consts=dict(base, Depth=5)),
             # same statement repeated with DDL / other statements in between (description caches)
-            dict(name="paths", mode="paths", consts=dict(base, KindsUsed={"starzz", "alter"}, Depth=7 if big else 6)),
-            dict(name="paths_fetch", mode="paths", consts=dict(base, KindsUsed={"i", "ins"}, Depth=7 if big else 6)),
+            dict(name="paths", mode="paths", sample=None if big else 4000, consts=dict(base, KindsUsed={"starzz", "alter"}, Depth=7 if big else 6)),
+            dict(name="paths_fetch", mode="paths", sample=None if big else 4000, consts=dict(base, KindsUsed={"i", "ins"}, Depth=7 if big else 6)),
             dict(name="walks", mode="walks", depth=12, num=3000 if big else 500, consts=dict(base, Depth=12)),
         ]
 
@@ -116,9 +117,9 @@ class C06(Prop):
         sc = f"S{_N}"
         conn = fs.connect("DB1", sc)
         setup = conn.cursor()
-        setup.execute("create table ty (n number, n10 number(10,0), n102 number(10,2), i int, f float, s varchar, s5 varchar(5), b boolean, "
+        setup.execute("create table ty (n number, n10 number(10,0), n102 number(10,2), n2012 number(20,12), i int, f float, s varchar, s5 varchar(5), b boolean, "
                       "dt date, tm time, ts timestamp_ntz, tz timestamp_tz, bin binary, v variant, o object, ar array)")
-        setup.execute("insert into ty select 1, 2, 3.25, 4, 1.5, 'x', 'y', true, '2024-01-02'::date, '01:02:03'::time, "
+        setup.execute("insert into ty select 1, 2, 3.25, 7.000000000125, 4, 1.5, 'x', 'y', true, '2024-01-02'::date, '01:02:03'::time, "
                       "'2024-01-02 03:04:05'::timestamp_ntz, '2024-01-02 03:04:05+00:00'::timestamp_tz, 'ab'::binary, "
                       "parse_json('{\"a\":1}'), object_construct('k',1), array_construct(1,2)")
         setup.execute("create table zz (i int)")
@@ -159,7 +160,13 @@ class C06(Prop):
                                 rows = twin.fetchall()
                                 if last == "usedb":
                                     conn.cursor().execute(f"use schema {sc}")
-                                if rows:
+                                if rows and last == "dup":
+                                    # repeated names: the keys are the distinct names, a tuple row has one element per entry
+                                    t2 = conn.cursor()
+                                    width = len(t2.execute(sql, params).fetchall()[0])
+                                    names = [m.name for m in d]
+                                    obs["struct"] = "ok" if list(rows[0].keys()) == list(dict.fromkeys(names)) and width == len(d) else "bad"
+                                elif rows:
                                     keys = list(rows[0].keys())
                                     obs["struct"] = "ok" if keys == [m.name for m in d] else "bad"
                                 else:
@@ -183,7 +190,7 @@ class C06(Prop):
                     else:
                         if row is None:
                             obs["res"] = "none"
-                        elif last not in META and last != "merge":
+                        elif last not in META and last not in ("merge", "dup"):
                             obs["py"] = [type(v).__name__ for v in row.values() if v is not None]
                 elif k == "describe":
                     sql, params = sql_of(op["kind"])
